@@ -570,6 +570,68 @@ static int corpus_next(corpus_iter *it) {
             strcpy(it->family, "S3");
             return 1;
         }
+        case 9: { /* S4 width-class worst cases: EVERY length 1..L x (min class, spread class, stride, outliers, order).
+                   * One element sits at the minimum, the others at min+S+j*stride (all distinct, so neither the
+                   * dictionary nor RLE qualifies), plus 0..2 outliers: every (min width, offset width, exception
+                   * width) combination an encoder's size arithmetic distinguishes, at both ends of each byte class. */
+            const uint64_t L = it->thorough ? 300 : 72;
+            static const uint64_t MINS[6] = {0, 241, 1ULL << 16, 1ULL << 32, 1ULL << 56, 1ULL << 63};
+            /* spreads: low end 2^(8(w-1)) of byte class w = 1..8, then the high end 2^(8w)-1-2n of w = 1..7 */
+            enum { NSP = 15, NOUT = 5, NSTR = 2, NORD = 2 };
+            const uint64_t per = 6ULL * NSP * NOUT * NSTR * NORD;
+            if (i >= L * per) {
+                it->stage++;
+                it->i = 0;
+                continue;
+            }
+            size_t n = (size_t)(i / per) + 1;
+            uint64_t t = i % per;
+            it->i++;
+            if (n > it->maxn) {
+                continue;
+            }
+            uint64_t mn = MINS[t % 6];
+            t /= 6;
+            int spi = (int)(t % NSP);
+            t /= NSP;
+            int outc = (int)(t % NOUT); /* 0 none; 1,2: one/two outliers at +S; 3,4: one/two at UINT64_MAX(-1) */
+            t /= NOUT;
+            int stri = (int)(t % NSTR);
+            t /= NSTR;
+            int ord = (int)t;
+            uint64_t S = spi < 8 ? 1ULL << (8 * spi) : (1ULL << (8 * (spi - 7))) - 1 - 2 * n;
+            if (spi >= 8 && (1ULL << (8 * (spi - 7))) - 1 < 4 * n) {
+                continue; /* class too narrow for n distinct values */
+            }
+            uint64_t stride = stri ? (S / (2 * n) ? S / (2 * n) : 1) : 1;
+            __uint128_t top = (__uint128_t)mn + S + (__uint128_t)stride * n + ((outc == 1 || outc == 2) ? S : 0);
+            if (top >= UINT64_MAX - 2) {
+                continue; /* does not fit below 2^64 */
+            }
+            for (size_t j = 0; j < n; j++) {
+                size_t pos = ord ? (j * 7 + 3) % n : j; /* ord 0: ascending (delta-eligible); 1: scattered */
+                if (ord && n % 7 == 0) {
+                    pos = (j * 5 + 3) % n;
+                }
+                if (ord && n % 35 == 0) {
+                    pos = (j * 11 + 3) % n;
+                }
+                it->v[pos] = j == 0 ? mn : mn + S + stride * j;
+            }
+            if (outc && n >= 2) {
+                int k = (outc == 2 || outc == 4) ? 2 : 1;
+                for (int q = 0; q < k && (size_t)q + 1 < n; q++) {
+                    /* the largest elements become the outliers (keeps ascending order ascending) */
+                    size_t pos = ord ? ((n - 1 - q) * (n % 35 == 0 ? 11 : n % 7 == 0 ? 5 : 7) + 3) % n : n - 1 - q;
+                    it->v[pos] = outc <= 2 ? it->v[pos] + S : UINT64_MAX - (uint64_t)q;
+                }
+            }
+            it->n = n;
+            snprintf(it->desc, sizeof it->desc, "n=%zu widthclass min=%" PRIu64 " spread=%" PRIu64 " stride=%" PRIu64 " outliers=%d order=%s", n, mn, S,
+                     stride, outc, ord ? "scattered" : "ascending");
+            strcpy(it->family, "S4");
+            return 1;
+        }
         default:
             return 0;
         }
